@@ -1042,9 +1042,18 @@ def run(repo, chk):
                    expected="same verdict as a condition built in the new state", found=bad_[:3])
     chk.floor("R-C02-9", 12)
 
+    # ---------------------------------------------------------------- R-C02-10 every link's rows are built from that link's own data
+    B.check_loop_independence(repo, chk, "R-C02-10", [(CON, b + ".build") for b in (
+        "piecewise_hazen_williams_headloss_constraint", "approx_hazen_williams_headloss_constraint", "head_pump_headloss_constraint", "power_pump_headloss_constraint",
+        "prv_headloss_constraint", "psv_headloss_constraint", "fcv_headloss_constraint", "tcv_headloss_constraint")] + [(PAR, p + ".build") for p in (
+        "hw_resistance_param", "minor_loss_param", "tcv_resistance_param", "pump_power_param", "valve_setting_param")] + [(B.VAR, "flow_var")], "link")
+    chk.floor("R-C02-10", 14)
+
 
 _W = lambda name, old, new, rule, **kw: dict(name=name, file=CON, old=old, new=new, rule=rule, **kw)
 WITNESSES = [
+    dict(name="pump-end-head-carried-from-the-previous-pump", file=CON, old="                if isinstance(end_node, wntr.network.Junction):\n                    end_h = m.head[end_node_name]\n                else:\n                    end_h = m.source_head[end_node_name]\n                A, B, C = link.get_head_curve_coefficients()",
+         new="                if not isinstance(end_node, wntr.network.Junction):\n                    end_h = m.source_head[end_node_name]\n                A, B, C = link.get_head_curve_coefficients()", rule="R-C02-10"),
     dict(name="prv-setting-head-cached-at-construction", file=CTRL, old="        self._r = 8.0 * self._prv.minor_loss / (9.81 * math.pi**2 * self._prv.diameter**4)\n\n    def requires(self):\n        return OrderedSet([self._prv, self._start_node, self._end_node])\n\n    def evaluate(self):\n        if self._prv._internal_status == LinkStatus.Active:\n            if self._prv.flow < -self._Qtol:\n                return False\n            elif self._start_node.head < self._prv.setting + self._end_node.elevation + self._r",
          new="        self._r = 8.0 * self._prv.minor_loss / (9.81 * math.pi**2 * self._prv.diameter**4)\n        self._hset = self._prv.setting + self._end_node.elevation\n\n    def requires(self):\n        return OrderedSet([self._prv, self._start_node, self._end_node])\n\n    def evaluate(self):\n        if self._prv._internal_status == LinkStatus.Active:\n            if self._prv.flow < -self._Qtol:\n                return False\n            elif self._start_node.head < self._hset + self._r", rule="R-C02-9"),
     dict(name="three-point-curve-keeps-the-start-values", file=ELEM, old="                    coeff, cov = curve_fit(flow_vs_head_func, Q, H, [A0, B0, C0])\n", new="                    coeff = [A0, B0, C0]\n", rule="R-C02-5"),
